@@ -51,10 +51,9 @@ void InvariantMixedDiscreteDistribution::updateDistribution()
   distribution_[invariant_] = p_;
   for (size_t i = 0; i < distNCat; i++)
   {
-    if (cats[i] == invariant_)
-      distribution_[invariant_] += (1. - p_) * probs[i];
-    else
-      distribution_[cats[i]] = (1. - p_) * probs[i];
+    // The map identifies values up to its precision: a class of the nested distribution which falls
+    // on an existing class (the invariant one, within the precision) adds its probability to it.
+    distribution_[cats[i]] += (1. - p_) * probs[i];
   }
 
   intMinMax_->setLowerBound(dist_->getLowerBound(), !dist_->strictLowerBound());
